@@ -1,5 +1,5 @@
 (* C16 -- Flatten/unflatten of nested dicts and NNX State conversions are mutual inverses. *)
-From Flaxm Require Import Lib.Harness Model.Flatten Proofs.Flatten.
+From Flaxm Require Import Lib.Harness Model.Flatten Proofs.Flatten Proofs.FlattenInv.
 
 (* exactly inverse with keep_empty_nodes, for every is_leaf that does not declare the root a leaf *)
 Theorem C16_unflatten_flatten_keep : forall kids il,
@@ -42,6 +42,27 @@ Print Assumptions C16_root_leaf_refuted.
 Theorem C16_multichar_sep_refuted :
   let s := 47%N in split [s; s] (join [s; s] [[97%N; s]; [98%N]]) = [[97%N]; [s; 98%N]].
 Proof. exact multichar_sep_refuted. Qed.
+
+(* the other direction: a flat dict whose keys are non-empty and prefix-free (pfreeb: no key is a prefix of or equal to
+   another -- what flatten_dict emits) and whose values are leaves or the empty-node sentinel is rebuilt by
+   unflatten_dict into a well-formed nested dict that flattens back (keep_empty_nodes=True) to exactly the same
+   entries; the paths flatten emits are pairwise different, so the result is a permutation of the input (dict
+   insertion order groups siblings, so the order itself may differ) *)
+Theorem C16_flatten_unflatten : forall l, pfreeb l = true -> Forall (fun e => fst e <> [] /\ lv (snd e)) l ->
+  exists kids, unflatten l = Some (Node kids) /\ wf (Node kids) = true /\
+    forall e, In e (flatten true no_leaf (Node kids)) <-> In e l.
+Proof. exact flatten_unflatten. Qed.
+Print Assumptions C16_flatten_unflatten.
+Theorem C16_flatten_paths_distinct : forall t, wf t = true -> NoDup (map fst (flatten true no_leaf t)).
+Proof. exact flatten_paths_distinct. Qed.
+Print Assumptions C16_flatten_paths_distinct.
+(* non-vacuity: entries given out of traversal order, a shared prefix, an empty node *)
+Example C16_flatten_unflatten_example :
+  let l := [([[98%N]; [99%N]], VTree (Leaf 1%N)); ([[97%N]], VEmpty); ([[98%N]; [97%N]; []], VTree (Leaf 2%N))] in
+  pfreeb l = true /\
+  option_map (flatten true no_leaf) (unflatten l) =
+    Some [([[98%N]; [99%N]], VTree (Leaf 1%N)); ([[98%N]; [97%N]; []], VTree (Leaf 2%N)); ([[97%N]], VEmpty)].
+Proof. vm_compute. split; reflexivity. Qed.
 
 (* State set laws on flat states (paths pairwise different within one state) *)
 Theorem C16_merge_later_wins : forall p ss, Forall paths_nodup ss -> flookup p (merge_flat ss) = last_hit p ss.
